@@ -313,6 +313,68 @@ pub fn walks(prop: &str, seed: u64, count: usize, rep: &mut Report) {
     }
 }
 
+/// Chunk size extremes instantiated for real: compressed size exactly 65536 and 65535 bytes,
+/// uncompressed size exactly 2 MiB, 1-byte chunks, each followed by a chunk that continues from the
+/// carried state (so that a mis-sized read desynchronises visibly).
+pub fn extremes(prop: &str, seed: u64, rep: &mut Report) {
+    use crate::coding::{encode_decs, Probs, CS};
+    use crate::kernel::RangeEnc;
+    let mut rng = StdRng::seed_from_u64(seed ^ 0xe87);
+    let p = Props { lc: 3, lp: 0, pb: 2 };
+    // program whose payload is exactly `target` bytes long (5 + normalisations)
+    let prog_with_packed = |rng: &mut StdRng, target: usize| -> Vec<Sym> {
+        let mut cs = CS::default();
+        let mut probs = Probs::default();
+        let mut enc = RangeEnc::new();
+        let mut prog = vec![];
+        let want = (target - 5) as u64;
+        while enc.norms + 4 < want {
+            let s = Sym::Lit { b: rng.gen() };
+            let d = cs.decisions(&s, p);
+            encode_decs(&mut enc, &mut probs, &d);
+            cs.apply(&s);
+            prog.push(s);
+        }
+        // cheap symbols: each costs well under one byte once adapted, so the count cannot jump past the target
+        while enc.norms < want {
+            let s = Sym::Short;
+            let d = cs.decisions(&s, p);
+            encode_decs(&mut enc, &mut probs, &d);
+            cs.apply(&s);
+            prog.push(s);
+        }
+        assert_eq!(enc.norms, want);
+        prog
+    };
+    let big_unpacked: Vec<Sym> = {
+        // 1 + 7681 * 273 + 238 = 2^21
+        let mut v = vec![Sym::Lit { b: 0x5A }];
+        for _ in 0..7681 {
+            v.push(Sym::Rep { r: 0, n: 273 });
+        }
+        v.push(Sym::Rep { r: 0, n: 238 });
+        v
+    };
+    let tail = vec![Sym::Lit { b: 1 }, Sym::Rep { r: 0, n: 5 }, Sym::Match { d: 2, n: 9 }, Sym::Short, Sym::Lit { b: 2 }];
+    let cases: Vec<(&str, Vec<Chunk>)> = vec![
+        ("packed=65536", vec![Chunk::Lzma { class: 3, props: Some(p), prog: prog_with_packed(&mut rng, 65536) }, Chunk::Lzma { class: 0, props: None, prog: tail.clone() }]),
+        ("packed=65535", vec![Chunk::Lzma { class: 3, props: Some(p), prog: prog_with_packed(&mut rng, 65535) }, Chunk::Lzma { class: 0, props: None, prog: tail.clone() }]),
+        ("unpacked=2MiB", vec![Chunk::Lzma { class: 3, props: Some(p), prog: big_unpacked.clone() }, Chunk::Lzma { class: 0, props: None, prog: tail.clone() }]),
+        ("unpacked=1,packed=min", vec![Chunk::Lzma { class: 3, props: Some(p), prog: vec![Sym::Lit { b: 9 }] }, Chunk::Lzma { class: 1, props: None, prog: vec![Sym::Lit { b: 8 }] }, Chunk::Raw { reset: false, data: vec![7] }]),
+        ("raw=65536 then lzma", vec![Chunk::Raw { reset: true, data: (0..65536usize).map(|i| (i % 253) as u8).collect() }, Chunk::Lzma { class: 2, props: Some(p), prog: vec![Sym::Match { d: 65536, n: 273 }, Sym::Rep { r: 0, n: 100 }] }]),
+    ];
+    for (name, chunks) in cases {
+        let (stream, out, infos) = crate::build::lzma2_stream(&chunks);
+        for api_name in ["lzma2", "raw", "xz"] {
+            let c = L2Case { data_hex: hex(&stream), api: api_name.into(), spec_res: None, spec_why: None, spec_out: None, origin: format!("extreme:{}", name) };
+            let ok = check_case(&c, prop, rep);
+            if ok && api_name == "lzma2" && rep.samples.len() < 8 {
+                rep.sample(json!({"origin": c.origin, "first_chunk": {"unpacked": infos[0].unpacked, "packed": infos[0].packed}, "out_len": out.len()}));
+            }
+        }
+    }
+}
+
 /// Random program for one chunk given the carried state (history length, st, rep).
 fn chunk_program(rng: &mut StdRng, st: &L2State, class: u8, nsyms: usize, hist_len: usize, _p: Props) -> Vec<Sym> {
     // simulate validity on a light-weight copy: only lengths / rep distances matter
